@@ -48,6 +48,8 @@ type Driver struct {
 	maxTok []string   // per store: greatest Append token so far
 	napp   []int
 	noHuge bool
+	dead   bool
+	mu     sync.Mutex
 	Errors []string
 }
 
@@ -65,10 +67,28 @@ func (d *Driver) emit(m map[string]any) {
 	if err != nil {
 		panic(err)
 	}
+	d.mu.Lock()
 	d.lines = append(d.lines, b)
+	d.mu.Unlock()
 }
 
-func (d *Driver) Lines() [][]byte { return d.lines }
+func (d *Driver) Lines() [][]byte {
+	d.mu.Lock()
+	defer d.mu.Unlock()
+	return append([][]byte(nil), d.lines...)
+}
+
+// RunRandomGuarded runs RunRandom under a watchdog: a store call that never returns (e.g. a lock leaked by an
+// earlier panic inside the store) is recorded as a store error instead of hanging the check.
+func (d *Driver) RunRandomGuarded(o Opts, watchdog time.Duration) {
+	done := make(chan struct{})
+	go func() { defer close(done); d.RunRandom(o) }()
+	select {
+	case <-done:
+	case <-time.After(watchdog):
+		d.emit(map[string]any{"e": "error", "op": "any", "s": "s1", "msg": "a store call on " + d.env.Kind + " did not return within " + watchdog.String()})
+	}
+}
 func (d *Driver) NextID() int     { return d.nextID }
 
 func sname(i int) string { return fmt.Sprintf("s%d", i+1) }
@@ -222,6 +242,9 @@ func (d *Driver) pickFrom(s int, o Opts) string {
 }
 
 func (d *Driver) fail(op string, s int, err error) {
+	if strings.Contains(err.Error(), "panic inside the store") {
+		d.dead = true // the store may have died holding its lock: nothing more can be asked of it
+	}
 	msg := fmt.Sprintf("%s on %s %s failed: %v", op, d.env.Kind, sname(s), err)
 	d.Errors = append(d.Errors, msg)
 	d.emit(map[string]any{"e": "error", "op": op, "s": sname(s), "msg": msg})
@@ -476,7 +499,7 @@ func (d *Driver) RunRandom(o Opts) {
 		d.ConcurrentAppends(d.rnd.IntN(len(d.env.Stores)), 2+d.rnd.IntN(o.Concurrent), per, o)
 	}
 	subs := []string{"sub-a", "sub-b", "под писка"}
-	for i := 0; i < o.Ops; i++ {
+	for i := 0; i < o.Ops && !d.dead; i++ {
 		s := d.rnd.IntN(len(d.env.Stores))
 		switch k := d.rnd.IntN(10); {
 		case k < 4:
@@ -497,6 +520,9 @@ func (d *Driver) RunRandom(o Opts) {
 	}
 	// finish with a full chain over every store: paged chain from the oldest offset
 	for s := range d.env.Stores {
+		if d.dead {
+			break
+		}
 		from := ""
 		for round := 0; round < 400; round++ {
 			n0 := len(d.lines)
